@@ -136,6 +136,7 @@ type c17Out struct {
 	Fpub        []*c17Fpub       `json:"fpub"`
 	Fanout      []*c17Fanout     `json:"fanout"`
 	Redeliv     []*c17Redeliv    `json:"redeliv"`
+	FwdCfg      []c17FwdCfg      `json:"fwd_cfg"`
 	Chain       []*c17Chain      `json:"chain"`
 	FaninCfg    []c17FaninCfg    `json:"fanin_cfg"`
 	RequeuerCfg []c17RequeuerCfg `json:"requeuer_cfg"`
@@ -1158,6 +1159,7 @@ func cmdC17(args []string) error {
 			return err
 		}
 	}
+	s.forwarderConfigs()
 	// FanIn
 	s.faninConfigs()
 	if err := s.faninGroup(next(), []string{"s1"}, "joined", 40*k, false, -1); err != nil {
